@@ -1,6 +1,7 @@
 package main
 
 import (
+	"encoding/binary"
 	"bytes"
 	"crypto/ed25519"
 	"crypto/sha256"
@@ -355,7 +356,33 @@ func runCase(w *world, cs caseSpec, rng *rand.Rand) verdict {
 	case "index":
 		mp.TargetIndex = int64(cs.Arg)
 	case "sibHash":
-		mp.HashRanges[cs.Lvl].Hash = flipBit(mp.HashRanges[cs.Lvl].Hash, rng)
+		if cs.Kind == "extend" && (cs.I>>uint(cs.Lvl))%2 == 0 {
+			// the sibling is the RIGHT child at this level: its hash is followed, in the preimage of the
+			// parent hash, by the two child indices (after the codec upgrade) and the parent's range
+			sib := mp.HashRanges[cs.Lvl]
+			parent := proofOf(cs.I) // recompute the target's range at this level from a fresh proof
+			tr := parent.Target.Range
+			for l := 0; l < cs.Lvl; l++ {
+				s2 := parent.HashRanges[l].Range
+				if (cs.I>>uint(l))%2 == 1 {
+					tr.Lower = s2.Lower
+				} else {
+					tr.Upper = s2.Upper
+				}
+			}
+			pr := pc.Range{Lower: tr.Lower, Upper: sib.Range.Upper}
+			ext := append([]byte{}, sib.Hash...)
+			if pc.ModuleCdc.IsAfterCodecUpgrade(vh) {
+				ix := uint64(cs.I >> uint(cs.Lvl))
+				b := make([]byte, 16)
+				binary.LittleEndian.PutUint64(b, ix)
+				binary.LittleEndian.PutUint64(b[8:], ix+1)
+				ext = append(ext, b...)
+			}
+			mp.HashRanges[cs.Lvl].Hash = append(ext, pr.Bytes()...)
+		} else {
+			mp.HashRanges[cs.Lvl].Hash = flipBit(mp.HashRanges[cs.Lvl].Hash, rng)
+		}
 	case "sibLower":
 		mutLower(&mp.HashRanges[cs.Lvl], cs.Kind)
 	case "sibUpper":
